@@ -2,7 +2,7 @@
 META = {
     "level": "exploration",
     "technique": "round-trip oracle on the real pack_children/_pack_contents/_unpack_contents (grid-less NodeMaker) and on real create/list of SDMF, MDMF and immutable directories; independent entry parser, rwcap decryptor, NFC and JSON comparison",
-    "text": "Random child sets (<= 50 entries; names with NFC-changing sequences, empty, ':' ',' NUL, astral, very long; nested JSON metadata with floats, huge ints, unicode, empty containers; caps of every kind incl. alleged-prefixed and unknown future caps in rw/ro/both slots) are packed by the real code for SDMF/MDMF writeable directories and unpacked by writeable and read-only directory nodes: the result must equal {NFC(name): (rw cap, ro cap, metadata)} (read-only view: no rw caps); names that collide after normalisation must yield exactly one of the colliding inputs. The packed bytes are also read by an independent parser (stored names are NFC UTF-8, metadata is JSON equal to the input, the rwcap slot decrypts under the writekey to the write-cap). Directory bytes written by an independent legacy writer with un-normalised names must unpack to normalised names. Immutable packing must raise MustBeDeepImmutableError iff the model says some child is mutable / write-capable / unknown-with-rw, and otherwise round-trip through an immutable directory node with only immutable children. Edits of an unpacked (cached) child dict must show after re-packing. The result of one directory's unpack / list() is also handed, as is, to the packer of another directory and to create_dirnode / create_subdirectory(initial_children) / create_immutable_dirnode (clone and snapshot must equal the source; snapshot refused iff a child is mutable). Every public entry point that takes a name (set_nodes, set_children, set_node, set_uri, add_file, create_subdirectory, move_child_to) is called with a non-NFC spelling of an existing NFC name: overwrite=False must be refused, overwrite=True must replace exactly that entry, the stored bytes hold one NFC entry per name. A grid part repeats the round trip through create_dirnode/set_children/list and create_immutable_dirnode on real servers.",
+    "text": "Random child sets (<= 50 entries; names with NFC-changing sequences, empty, ':' ',' NUL, astral, very long; nested JSON metadata with floats, huge ints, unicode, empty containers; caps of every kind incl. alleged-prefixed and unknown future caps in rw/ro/both slots) are packed by the real code for SDMF/MDMF writeable directories and unpacked by writeable and read-only directory nodes: the result must equal {NFC(name): (rw cap, ro cap, metadata)} (read-only view: no rw caps); names that collide after normalisation must yield exactly one of the colliding inputs. The packed bytes are also read by an independent parser (stored names are NFC UTF-8, metadata is JSON equal to the input, the rwcap slot decrypts under the writekey to the write-cap). Directory bytes written by an independent legacy writer with un-normalised names must unpack to normalised names. Immutable packing must raise MustBeDeepImmutableError iff the model says some child is mutable / write-capable / unknown-with-rw, and otherwise round-trip through an immutable directory node with only immutable children. Edits of an unpacked (cached) child dict must show after re-packing. The result of one directory's unpack / list() is also handed, as is, to the packer of another directory and to create_dirnode / create_subdirectory(initial_children) / create_immutable_dirnode (clone and snapshot must equal the source; snapshot refused iff a child is mutable). Every public entry point that takes a name (set_nodes, set_children, set_node, set_uri, add_file, create_subdirectory, move_child_to) is called with a non-NFC spelling of an existing NFC name: overwrite=False must be refused, overwrite=True must replace exactly that entry, the stored bytes hold one NFC entry per name. MDMF-family caps (files and directories, write and read) are also given with the legacy Tahoe 1.9 extension hints (':3:131073' and other ':'-suffixes) and legacy directory bytes store them verbatim: such a child must be accepted, listed, and still be there after another entry is modified and the directory re-packed (caps compared modulo the hints). A grid part repeats the round trip through create_dirnode/set_children/list and create_immutable_dirnode on real servers.",
     "note": "Trusts unicodedata, json and the `cryptography` AES primitive as second opinions; verifier caps and nodes carrying a recorded error are outside the input space (pack must refuse the latter).",
 }
 LEVEL = "exploration"
@@ -20,7 +20,19 @@ VERIFIERS = ["SSK-Verifier", "MDMF-Verifier", "DIR2-Verifier", "DIR2-CHK-Verifie
 
 class Child(object):
     """One generated child: the real node plus what the model expects to read back."""
-    __slots__ = ("node", "rw", "ro", "imm_ok", "cls", "desc", "md", "unknownish")
+    __slots__ = ("node", "rw", "ro", "imm_ok", "cls", "desc", "md", "unknownish", "ext")
+
+
+def strip_ext(cap):
+    """MDMF-family cap without its extension hints (whether the hints survive re-serialisation is left open)."""
+    if not cap:
+        return cap
+    pre, body = M.strip_alleged(cap)
+    kind = M.kind_of_prefix(body)
+    if kind is None or kind.shape != "mdmf":
+        return cap
+    f = body[len(kind.prefix):].split(b":")
+    return pre + kind.prefix + b":".join(f[:2])
 
 
 def strengthen(ro, imm=False):
@@ -34,6 +46,7 @@ def gen_child(rng, nm, tagno, only_immutable=False):
     ch = Child()
     r = rng.random()
     ch.unknownish = False
+    ch.ext = b""
     if r < .62:
         names = KNOWN if not only_immutable else ["CHK", "LIT", "DIR2-CHK", "DIR2-LIT"]
         kname = rng.choice(names)
@@ -44,17 +57,23 @@ def gen_child(rng, nm, tagno, only_immutable=False):
         if rng.random() < .3:
             prefix = b"imm." if (not kind.mutable and rng.random() < .5) else (b"ro." if kind.level != "w" else b"")
         slot = rng.choice(["rw", "ro", "both"] if kind.level == "w" else ["rw", "ro"])
+        ext = b""
+        if kind.shape == "mdmf" and rng.random() < .4:
+            # Tahoe 1.9 wrote MDMF caps with extension hints (k and segment size); the grammar still accepts any ':'-suffix
+            ext = rng.choice([b":3:131073", b":3:131073", b":1:1", b":131073", b":"])
         if slot == "both":
-            args = (s, info.readonly)
+            args = (s + ext, info.readonly + ext)
         elif slot == "rw":
-            args = (prefix + s, None)
+            args = (prefix + s + ext, None)
         else:
-            args = (None, prefix + s)
+            args = (None, prefix + s + ext)
+        ch.ext = ext
         ch.rw = s if kind.level == "w" else None
         ch.ro = info.readonly
         ch.imm_ok = not kind.mutable
         ch.cls = "known-" + kname
-        ch.desc = "%s via %s slot%s" % (kname, slot, " prefix " + prefix.decode() if prefix else "")
+        ch.desc = "%s via %s slot%s%s" % (kname, slot, " prefix " + prefix.decode() if prefix else "",
+                                          " with extension hints %r" % ext.decode() if ext else "")
     elif r < .72:
         kname = rng.choice(VERIFIERS)
         s = D.fake_cap(rng, kname)
@@ -105,8 +124,13 @@ def run(ck):
             ch, okk = gen_child(crng, nm, tagno[0], only_immutable)
             name = D.gen_unstable(crng) if crng.random() < .2 else D.gen_name(crng, pool)
             if not okk:
+                if ch.cls.startswith("known-"):
+                    ck.violation("valid-capability-refused", "create_from_cap for %s records %s: %s" % (
+                        ch.desc, type(ch.node.error).__name__, str(ch.node.error)[:120]), {"child": ch.desc})
                 errs.append((name, ch))
                 continue
+            if ch.ext:
+                ck.hit("mdmf-cap-with-extension-hints")
             ch.md = D.gen_metadata(crng, allow_tahoe=True, allow_no_write=True)
             kids[name] = ch
         return kids, errs
@@ -120,6 +144,7 @@ def run(ck):
 
     def matches(child, md, cand, view, imm=False):
         rw, ro = D.node_caps(child)
+        rw, ro = strip_ext(rw), strip_ext(ro)
         want_ro = cand.ro
         if imm and cand.unknownish:
             want_ro = strengthen(cand.ro, imm=True)
@@ -158,6 +183,7 @@ def run(ck):
                 good = False
                 c0 = cands[0]
                 rw, ro = D.node_caps(child)
+                rw, ro = strip_ext(rw), strip_ext(ro)
                 if len(cands) == 1 and (rw, ro) == (c0.rw if view == "writer" else None, c0.ro if not (imm and c0.unknownish) else strengthen(c0.ro, True)):
                     ck.violation("metadata-changed-in-roundtrip", "%s view: child %r metadata %r, stored %r" % (view, name, _short(md), _short(c0.md)),
                                  dict(wit, child=name))
@@ -205,7 +231,7 @@ def run(ck):
             else:
                 plain = D.decrypt_rwcap(e.rwcapdata, writekey)
                 wants = [(c_.rw or b"") for c_ in cands]
-                if plain is None or plain.rstrip(b" ") not in wants:
+                if plain is None or strip_ext(plain.rstrip(b" ")) not in wants:
                     ck.violation("capability-changed-in-roundtrip", "rwcap slot of %r decrypts (specification decryptor) to %r, expected %r"
                                  % (nm_, D.show((plain or b"")[:70]), D.show(wants[0][:70])), dict(wit, child=nm_))
         if names != sorted(names) or len(set(names)) != len(names):
@@ -463,7 +489,10 @@ def run(ck):
         pad = crng.random() < .3
         for nx, c_ in sorted(kids.items()):
             sp = b"   " if pad else b""
-            rows.append((nx.encode("utf-8"), c_.ro + sp, D.encrypt_rwcap(dinfo.writekey, (c_.rw or b"") + (sp if c_.rw else b"")),
+            ex = c_.ext if crng.random() < .8 else b""      # an old writer stored the hints verbatim
+            if ex:
+                ck.hit("legacy-stored-cap-with-extension-hints")
+            rows.append((nx.encode("utf-8"), c_.ro + ex + sp, D.encrypt_rwcap(dinfo.writekey, ((c_.rw + ex) if c_.rw else b"") + (sp if c_.rw else b"")),
                          __import__("json").dumps(c_.md).encode("utf-8")))
         raw = D.build_dir(rows)
         wit = {"directory": fam, "names": [repr(x)[:40] for x in kids], "legacy_bytes": True, "space_padded_caps": pad}
@@ -476,6 +505,18 @@ def run(ck):
                 ck.violation("unpack-raised-on-specification-bytes", "%s view: %s: %s" % (view, type(e).__name__, str(e)[:200]), wit)
                 continue
             compare(res, kids, "legacy-" + view if False else view, wit)
+            if view == "writer" and len(res) >= 1:
+                # another entry is modified and the directory re-packed: everything else must still be there
+                try:
+                    victim = crng.choice(sorted(res))
+                    res[victim] = (res[victim][0], {"touched": True})
+                    again = dn._unpack_contents(dn._pack_contents(res))
+                    ck.mon("legacy-entries-survive-repack")
+                    if set(again) != set(res):
+                        ck.violation("children-lost-or-invented-in-roundtrip", "after modifying %r in a directory written by an older client and "
+                                     "re-packing: lost %r" % (victim, sorted(set(res) - set(again))[:3]), wit)
+                except Exception as e:  # noqa
+                    ck.violation("pack-raised-on-valid-children", "re-pack of legacy directory: %s: %s" % (type(e).__name__, str(e)[:200]), wit)
         ck.case("legacy-bytes", key=("C", fam, tuple(sorted(kids))), nontrivial=any(not x.isascii() for x in kids))
 
     env.set_thread_sync(False)
@@ -486,7 +527,8 @@ def run(ck):
                      "names-collide-after-normalisation", "immutable-pack-refused", "immutable-pack-accepted",
                      "legacy-unnormalised-name", "child:known", "child:unknown", "child:verifier", "grid-immutable-refused",
                      "listing-reused-as-children", "listing-reused-as-immutable-children", "entry-point:set_nodes",
-                     "non-nfc-name-whose-largest-code-point-is-the-combining-mark", "non-nfc-name-with-U+0300-as-largest-code-point")
+                     "non-nfc-name-whose-largest-code-point-is-the-combining-mark", "non-nfc-name-with-U+0300-as-largest-code-point",
+                     "mdmf-cap-with-extension-hints", "legacy-stored-cap-with-extension-hints")
 
 
 def grid_case(ck, rng, caseno, mkchildren, compare, independent_bytes_oracle):
@@ -785,3 +827,4 @@ def _short(x):
 #   c19-rw-uri-lost-for-unknown     _pack stores no rw cap for unknown nodes           -> capability-changed-in-roundtrip
 #   seeded/C19-3   Adder normalises only in set_node(); set_nodes() bypasses it   -> equivalent-name-not-recognised-at-entry-point
 #   seeded/C19-4   pack_children reuses another directory's cached packed entries -> clone-of-listing-differs-from-source
+#   seeded/C19-8   MDMF cap regexps end in '$' (extension hints refused)           -> valid-capability-refused, children-lost-or-invented-in-roundtrip
